@@ -423,3 +423,16 @@ Example c07_hypotheses_nonvacuous :
                  ks_tail := [(Tintr, [bs "5"; bs "1"]); (Tctxt, [bs "7"])] |} = true
   /\ (Zpos 100 <= spec_total (dticks [100; 0; 50; 1000; 10; 0; 3; 0; 7; 0] [190; 0; 50; 1115; 10; 0; 3; 0; 9; 0]))%Z.
 Proof. split; vm_compute; congruence. Qed.
+
+(* comparing a sample with itself: nothing elapsed, 0.0 / all shares 0 *)
+Lemma dticks_self s : Forall (fun x => x = 0%Z) (dticks s s).
+Proof. induction s as [|a s IH]; cbn; constructor; [unfold clip; lia|exact IH]. Qed.
+Lemma spec_total_self s : spec_total (dticks s s) = 0%Z.
+Proof. unfold spec_total, spec_busy. now rewrite !(tk_zero _ _ (dticks_self s)). Qed.
+Theorem spec_percent_self s : spec_percent s s = 0.
+Proof. unfold spec_percent. now rewrite spec_total_self. Qed.
+Theorem spec_shares_self s : Forall (fun q => q = 0) (spec_shares s s).
+Proof.
+  unfold spec_shares. rewrite spec_total_self. apply Forall_forall. intros q Hq.
+  apply in_map_iff in Hq as (x & <- & _). reflexivity.
+Qed.
